@@ -300,3 +300,47 @@ Section Close.
     cbn [sr_step sr_st st_panic add_panic st_pool set_pool]. split; [reflexivity|]. split; [apply Bool.orb_false_r|exact Hpl].
   Qed.
 End Close.
+
+(* ---- the lockCount checks, on every reachable state ------------------------------------------ *)
+Lemma lockcount_checks : forall cfg c0 evs,
+  Forall event_valid evs -> never_shared (init cfg c0) evs ->
+  let st := reachable cfg c0 evs in
+  forall c o lf, In c (st_clients st) -> In o (c_oofs c) -> In lf (of_lofs o) ->
+    let table := pool_locks (of_handle o) (st_pool st) in
+    (* "Negative lock count" *)
+    (0 <= lf_count lf)%Z
+    /\ (forall q, LS.lowner q = lf_owner lf -> (0 <= lf_count lf + LS.set_delta (LS.set table q))%Z)
+    (* "Lock-owner file still holds locks": lofs.remove after unlockAndRemove's UnlockAll *)
+    /\ (if (0 <? lf_count lf)%Z then (lf_count lf + LS.set_delta (LS.set table (unlock_q (lf_owner lf))))%Z = 0%Z
+        else lf_count lf = 0%Z)
+    (* the two panics of ByteRangeLockSet.Set *)
+    /\ (forall q, qvalid q -> LS.set_panic (LS.set table q) = false).
+Proof.
+  intros cfg c0 evs Hv Hn st c o lf Hc Ho Hlf table.
+  destruct (lockcount_exact_lemma cfg c0 evs Hv Hn) as [LC [_ LW]]. fold st in LC, LW.
+  destruct (LC c o lf Hc Ho Hlf) as [Ec Hnn]. unfold table_entries in Ec. fold table in Ec.
+  pose proof (reachable_linv cfg c0 evs Hv Hn) as [_ [_ [_ [T _]]]]. fold st in T.
+  destruct (T (of_handle o)) as [Hwf Hbd]. cbn [view v_pool] in Hwf, Hbd. fold table in Hwf, Hbd.
+  split; [exact Hnn|]. split; [|split].
+  - intros q Hq. pose proof (set_count_mine table q) as Hm. rewrite Hq in Hm. unfold tcnt, mine in Hm.
+    pose proof (countz_nonneg (fun k => LS.lowner k =? lf_owner lf) (LS.set_list (LS.set table q))). lia.
+  - destruct (0 <? lf_count lf)%Z eqn:Ep; [|apply Z.ltb_ge in Ep; lia].
+    pose proof (set_count_mine table (unlock_q (lf_owner lf))) as Hm. cbn [unlock_q LS.lowner] in Hm.
+    change (LS.mkLock 0 u64max (lf_owner lf) LS.Unlocked) with (unlock_q (lf_owner lf)) in Hm.
+    rewrite (unlock_all_list table (lf_owner lf) (wf_bounds table Hwf Hbd)), tcnt_filter_other_same in Hm.
+    unfold tcnt, mine in Hm. lia.
+  - intros q [Hq _]. apply set_no_panic; assumption.
+Qed.
+
+(* ---- decidable form of the hypothesis (for examples) ------------------------------------------- *)
+Fixpoint never_shared_b (st : state) (evs : list event) : bool :=
+  match evs with
+  | [] => true
+  | e :: tl => forallb (fun c => negb (shares c)) (st_clients (fst (step st e))) && never_shared_b (fst (step st e)) tl
+  end.
+
+Lemma never_shared_b_iff : forall evs st, never_shared st evs <-> never_shared_b st evs = true.
+Proof.
+  induction evs as [|e tl IH]; intros st; cbn [never_shared never_shared_b]; [tauto|].
+  rewrite Bool.andb_true_iff, <- IH. unfold no_sharing. tauto.
+Qed.
